@@ -1,8 +1,13 @@
 ------------------------- MODULE CacheStressTrace -------------------------
 (***************************************************************************)
-(* Trace validation of concurrent histories of the real cache (driver      *)
-(* cache-stress: free-running threads on one unbounded cache without       *)
-(* expiry) against Layer A (CacheA).                                        *)
+(* Trace validation of concurrent histories of the real cache against      *)
+(* Layer A (CacheA).  Two drivers produce them (harness/cachex):           *)
+(*   cache-stress  free-running threads on an unbounded cache without      *)
+(*                 expiry (interleavings chosen by the OS);                *)
+(*   cache-sched   2-3 user threads + 1 maintenance thread under the       *)
+(*                 cooperative scheduler (interleavings chosen at every    *)
+(*                 lock / atomic step), bounded caches and TTLs included,  *)
+(*                 with a `final` record at quiescence.                    *)
 (*                                                                         *)
 (* `call` and `ret` records frame every operation in a global order.  An   *)
 (* operation takes effect at one silent Lin step between its two records,  *)
@@ -10,12 +15,15 @@
 (* sequential histories are judged by) must admit the result the call      *)
 (* reported (the driver copies the result into the `call` record so that   *)
 (* the outcome operator can be evaluated at the linearization point).      *)
-(* A history is accepted iff some choice of linearization points explains  *)
-(* every record: per key the cache is an atomic register (C11), no compute *)
-(* increment is lost (the counter n inside the value), or_insert inserts   *)
-(* at most once, and nothing is ever missing (unbounded, no expiry: C12    *)
-(* NoPrematureMiss).  The longest explained prefix is kept in TLC          *)
-(* register 1 (-workers 1).                                                *)
+(* Spontaneous forgetting is a silent Forget step; it must be announced:   *)
+(* the notifications the listener had received at quiescence (`final`,     *)
+(* also copied into the `new` record) are exactly the Forget steps taken   *)
+(* plus the Invalidated notifications the removes owe (C16 truthful, once, *)
+(* complete), the reported cost is the resident cost (C13) and a peek of   *)
+(* every key agrees with the residency (C11).                              *)
+(* A history is accepted iff some choice of silent steps explains every    *)
+(* record.  The longest explained prefix is kept in TLC register 1         *)
+(* (-workers 1); the search stops as soon as the whole file is explained.  *)
 (***************************************************************************)
 EXTENDS CacheA, Json, IOUtils
 
@@ -25,18 +33,27 @@ N == Len(Rec)
 VARIABLES
   l,      \* next record to explain
   pend,   \* operations between call and ret: o -> [r: the call record, lin: taken effect]
+  told,   \* indices of the final notifications already explained by a Forget step
+  owed,   \* Invalidated notifications the linearized removes owe / may send (clear)
   devs
-vars == <<cacheVars, l, pend, devs>>
+vars == <<cacheVars, l, pend, told, owed, devs>>
 
 Max2(a, b) == IF a > b THEN a ELSE b
 Track == TLCSet(1, Max2(TLCGet(1), l))
+TrackOk == Track /\ (l = N + 1 => TLCSet("exit", TRUE))
 
 R == Rec[l]
 Is(k) == l <= N /\ R.k = k
+B(x) == (x = TRUE)
 
 Empty == [x \in {} |-> 0]
 Put(f, k, v) == [x \in DOMAIN f \cup {k} |-> IF x = k THEN v ELSE f[x]]
 Drop1(f, k) == [x \in DOMAIN f \ {k} |-> f[x]]
+Owed0 == [must |-> {}, may |-> {}]
+\* aux: fnotes = the notifications of the `final` record; maint = a maintenance pass has started;
+\* clearOverlap = a clear() ran while another writer (insert, entry, remove, maintenance) was
+\* between its call and its return (guard of the deviation FC5)
+Aux0 == [fnotes |-> <<>>, maint |-> FALSE, clearOverlap |-> FALSE]
 
 Init ==
   /\ TLCSet(1, 0)
@@ -44,60 +61,120 @@ Init ==
   /\ cfg = [keys |-> 1, cap |-> 0, ttl |-> 0, tti |-> 0, grace |-> 0, tick |-> 0, policy |-> "", kf |-> {}]
   /\ live = [k \in 1..1 |-> NoE]
   /\ now = 0
-  /\ aux = [ahead |-> FALSE, stale |-> {}]
-  /\ pend = Empty
+  /\ aux = Aux0
+  /\ pend = Empty /\ told = {} /\ owed = Owed0
   /\ devs = {}
 
 New ==
   /\ Is("new")
-  /\ R.cap = 0 /\ R.ttl = 0 /\ R.tti = 0      \* this driver's caches never forget
-  /\ cfg' = [keys |-> R.keys, cap |-> 0, ttl |-> 0, tti |-> 0, grace |-> 0, tick |-> 0, policy |-> R.policy, kf |-> SeqToSet(R.kf)]
+  /\ cfg' = [keys |-> R.keys, cap |-> R.cap, ttl |-> R.ttl, tti |-> R.tti, grace |-> R.grace, tick |-> R.tick,
+             policy |-> R.policy, kf |-> SeqToSet(R.kf), hid |-> R.hid]
   /\ live' = [k \in 1..R.keys |-> NoE]
   /\ now' = R.t
-  /\ pend' = Empty /\ devs' = {}
+  /\ aux' = [fnotes |-> IF "fnotes" \in DOMAIN R THEN R.fnotes ELSE <<>>, maint |-> FALSE, clearOverlap |-> FALSE]
+  /\ pend' = Empty /\ told' = {} /\ owed' = Owed0 /\ devs' = {}
   /\ l' = l + 1
-  /\ UNCHANGED aux
 
+\* the driver moved the virtual clock (only while no operation is running)
+Adv ==
+  /\ Is("adv")
+  /\ pend = Empty /\ R.t >= now
+  /\ now' = R.t
+  /\ l' = l + 1
+  /\ UNCHANGED <<cfg, live, aux, pend, told, owed, devs>>
+
+Writers == {"ins", "ent", "rem", "maint"}
 Call ==
   /\ Is("call")
   /\ R.o \notin DOMAIN pend
   /\ pend' = Put(pend, R.o, [r |-> R, lin |-> FALSE])
+  /\ aux' = [aux EXCEPT !.maint = @ \/ R.op = "maint",
+                        !.clearOverlap = @ \/ (R.op = "clear" /\ \E o \in DOMAIN pend : pend[o].r.op \in Writers)
+                                           \/ (R.op \in Writers /\ \E o \in DOMAIN pend : pend[o].r.op = "clear")]
   /\ l' = l + 1
-  /\ UNCHANGED <<cacheVars, devs>>
+  /\ UNCHANGED <<cfg, live, now, told, owed, devs>>
 
+Nop(L, r, t) == {Out(L)}
 Outcomes(L, r) ==
   CASE r.op = "rd" -> Read(L, r, now)
     [] r.op = "ins" -> Insert(L, r, now)
     [] r.op = "rem" -> Remove(L, r, now)
     [] r.op = "comp" -> Compute(L, r, now)
     [] r.op = "ent" -> EntryOp(L, r, now)
+    [] r.op = "clear" -> Clear(L, r, now)
+    [] r.op = "maint" -> Nop(L, r, now)
     [] OTHER -> {}
 
 \* the operation takes effect, atomically, with the result it reported
 Lin(o) ==
-  /\ l <= N
   /\ ~pend[o].lin /\ pend[o].r.done
   /\ \E out \in Outcomes(live, pend[o].r) :
        /\ live' = out.L
+       /\ owed' = [must |-> owed.must \cup out.inv, may |-> owed.may \cup out.invopt]
        /\ devs' = devs \cup out.devs
   /\ pend' = [pend EXCEPT ![o].lin = TRUE]
-  /\ UNCHANGED <<cfg, now, aux, l>>
+  /\ UNCHANGED <<cfg, now, aux, l, told>>
+
+\* Spontaneous forgetting (C11), announced by the i-th notification of the final record.
+\* In these histories only explicit run_maintenance() calls evict or expire (the janitor is
+\* configured out of the way), so a Forget lies inside a maintenance call.  The deviation
+\* guards of CacheA: all maintenance passes of a scenario run at one instant of the frozen
+\* clock, so the timer wheel is ahead of the clock from the first pass on (F15), and a timer
+\* left armed by an earlier eviction / clear may belong to any key (FC2).
+MaintRunning == \E o \in DOMAIN pend : pend[o].r.op = "maint"
+NoteAux == [ahead |-> aux.maint /\ cfg.tick > 0, stale |-> 1..cfg.keys]
+Forget(i) ==
+  LET x == aux.fnotes[i] IN
+  /\ i \notin told /\ x[4] # "Invalidated"
+  /\ MaintRunning
+  /\ B(NoteOK(live, x, now, NoteAux))
+  /\ live' = ForgetAll(live, {x[1]})
+  /\ told' = told \cup {i}
+  /\ devs' = devs \cup NoteDevs(live, x, now, NoteAux)
+  /\ UNCHANGED <<cfg, now, aux, l, pend, owed>>
+
+LinStep ==
+  /\ l <= N
+  /\ \/ \E o \in DOMAIN pend : Lin(o)
+     \/ \E i \in 1..Len(aux.fnotes) : Forget(i)
 
 Ret ==
   /\ Is("ret")
   /\ R.o \in DOMAIN pend /\ pend[R.o].lin
   /\ pend' = Drop1(pend, R.o)
   /\ l' = l + 1
-  /\ UNCHANGED <<cacheVars, devs>>
+  /\ UNCHANGED <<cacheVars, told, owed, devs>>
+
+\* Quiescence: every thread has finished, the notification queue is drained.
+NoDup(s) == \A i, j \in 1..Len(s) : i # j => s[i] # s[j]
+Final ==
+  /\ Is("final")
+  /\ pend = Empty
+  /\ R.notes = aux.fnotes
+  /\ B(NoDup(R.notes))                                                       \* C16: nothing notified twice
+  /\ LET inv == {i \in 1..Len(R.notes) : R.notes[i][4] = "Invalidated"}
+         invs == {R.notes[i] : i \in inv}
+     IN
+     /\ told = (1..Len(R.notes)) \ inv                                       \* C16: every notification is a forget that happened
+     /\ B(owed.must \subseteq invs /\ invs \subseteq (owed.must \cup owed.may))  \* C16: removes are announced, and only they
+  \* C13: reported cost = resident cost.  Known finding FC5: insert / entry / remove / the
+  \* eviction passes update current_cost after releasing the shard lock, clear() stores 0 under
+  \* all shard locks: an update that lands after the store belongs to an entry clear() already
+  \* dropped (or subtracts from the fresh 0), and the counter stays off for good.
+  /\ \/ R.cr = Resident(live) /\ UNCHANGED devs
+     \/ R.cr # Resident(live) /\ Dev("FC5") /\ aux.clearOverlap /\ devs' = devs \cup {"FC5"}
+  /\ B(ViewOK(live, R.view, now))                                            \* C11 / C12 on a peek of every key
+  /\ l' = l + 1
+  /\ UNCHANGED <<cacheVars, pend, told, owed>>
 
 End ==
   /\ Is("end")
   /\ pend = Empty
-  /\ \A x \in devs : PrintT(<<"DEV", x, 0>>)
+  /\ \A x \in devs : PrintT(<<"DEV", x, cfg.hid>>)
   /\ l' = l + 1
-  /\ UNCHANGED <<cacheVars, pend, devs>>
+  /\ UNCHANGED <<cacheVars, pend, told, owed, devs>>
 
-Next == New \/ Call \/ Ret \/ End \/ \E o \in DOMAIN pend : Lin(o)
+Next == LinStep \/ New \/ Adv \/ Call \/ Ret \/ Final \/ End
 
 Spec == Init /\ [][Next]_vars
 
